@@ -87,7 +87,7 @@ pub fn run(_pid: &str, _func: &str, replay: Option<Value>, seed: u64) -> Value {
         };
         return match r { Some(v) => hit(inp.clone(), v, "parse_git_ref"), None => none("replayed input satisfies the executable contract on the current build") };
     }
-    let pieces = ["a", "/", "HEAD", "git", "H", "b"];
+    let pieces = ["a", "/", "HEAD", "git", "H", "b", "head", "Git"];
     let ws = words(&pieces, 3);
     let ws4 = words(&pieces, 4);
     let mut seen: HashMap<Sym, String> = HashMap::new();
@@ -110,7 +110,7 @@ pub fn run(_pid: &str, _func: &str, replay: Option<Value>, seed: u64) -> Value {
     } } }
     // random: longer names over a larger alphabet
     let mut rng = Rng::new(seed ^ 0xC33);
-    let big = ["a", "/", "HEAD", "git", "H", "b", "refs", "heads", "remotes", "tags", "@", ".", "-", "é", " "];
+    let big = ["a", "/", "HEAD", "git", "H", "b", "head", "Head", "GIT", "refs", "heads", "remotes", "tags", "@", ".", "-", "é", " "];
     let word = |rng: &mut Rng, max: u64| -> String { (0..rng.below(max + 1)).map(|_| big[rng.below(big.len() as u64) as usize]).collect() };
     for _ in 0..20000 {
         let g = format!("{}{}", PREFIXES[rng.below(PREFIXES.len() as u64) as usize], word(&mut rng, 6));
